@@ -335,6 +335,32 @@ func c02Check(c *core.Ctx, s *wire.Session, t c02Tx) (verdict string) {
 			}
 		}
 	}
+	if (mi || ub) && bad == "" {
+		// the same transaction twice in one document: every transaction gets its
+		// own verdict (equal messages on different lines are two problems)
+		uri := "file:///c02/twice.journal"
+		s.DidOpen(uri, text+"\n"+text)
+		raw2 := s.Client.Last(uri)
+		s.DidClose(uri)
+		nmi, nub := map[int]bool{}, map[int]bool{}
+		for _, d := range parseDiags(raw2) {
+			switch d.Code {
+			case "MULTIPLE_INFERRED":
+				nmi[d.StartLine] = true
+			case "UNBALANCED":
+				nub[d.StartLine] = true
+			}
+		}
+		want := func(b bool) int {
+			if b {
+				return 2
+			}
+			return 0
+		}
+		if len(nmi) != want(mi) || len(nub) != want(ub) {
+			viol("every transaction of a document gets its own verdict", "the same transaction twice", fmt.Sprintf("one transaction: multiple-missing=%v unbalanced=%v; the same transaction twice in one document: %d and %d verdicts on distinct lines\n%s", mi, ub, len(nmi), len(nub), raw2))
+		}
+	}
 	return fmt.Sprintf("mi=%v ub=%v res=%v", mi, ub, res)
 }
 
